@@ -52,9 +52,10 @@ static PyObject* PyCGauleg_cgauleg(PyObject* self, PyObject* args) {
 
 		z=cos( pi*(i-0.25)/(npts+.5) );
 
-		abszdiff = fabs(z-z1);
-
-		while (abszdiff > EPS) 
+		/* always refine at least once: the start value can coincide with
+		   z1 (npts=1: cos(pi/2) ~ 6e-17 vs the initial z1=0), in which case
+		   pp would be used without ever having been computed */
+		do
 		{
 			p1 = 1.0;
 			p2 = 0.0;
@@ -70,7 +71,7 @@ static PyObject* PyCGauleg_cgauleg(PyObject* self, PyObject* args) {
 
 			abszdiff = fabs(z-z1);
 
-		}
+		} while (abszdiff > EPS);
 
 		x[i-1] = xm - xl*z;
 		x[npts+1-i-1] = xm + xl*z;
